@@ -15,8 +15,32 @@ another unit (times 2**p, p in -200..200: micro-strain in SI units, forces in N 
 (offset up to 2**30 units).  Powers of two and small integers keep the float arithmetic exact, so the exact reference, the Rat
 model and the affine-map law (a = 2**p, b a multiple of a signal value) still apply without tolerance.  Thresholds include values of the signal itself
 (exact tie: `a threshold only removes values below it`) and the mid level.
+
+Audit additions (classes of inputs inside the quantifier that were not generated before):
+* spellings (stream `spell`): the same exact signal handed to `find_maxima` as float64 / int64 / int32 / int16 / unsigned / float32
+  array, strided / reversed / column view, read-only array; threshold as float / int / numpy scalar / 0-d and 1-element array;
+  `local` as bool / int / numpy bool; arguments positional, by keyword, with the deprecated `up` given.  Clauses: the reference,
+  values at positions, ascending, and the SECOND call on the same array (returned arrays overwritten by the caller in between)
+  returns the same maxima of the array that was passed, which is left as it was.  Same `pk.max` model request as the plain case.
+* noisy real-valued signals (stream `float`): sines + noise, random walks, decimal-quantised signals (plateaus and ties at
+  non-dyadic values), slow oscillations with few crossings, large means and decimal units, decimal time grids; through
+  `find_maxima`, `TimeSeries.maxima/minima(twin, rettime)`.  The reference is evaluated in exact rationals on the float samples;
+  a case is skipped (counted) when a sample lies within the rounding error of the float mean (the only place where rounding can
+  change the answer).  Returned values must be bit-identical to the samples at the returned positions, times bit-identical to the
+  stored times; scaling by 2**p and negation must commute exactly.  The Rat model gets the same samples as exact rationals.
+* histories: the caller CHANGES the signal of a series between queries (`ts.x = …`, `ts.x[:] = …`, `ts.x[i] = v`, `ts.x *= -1`),
+  rejected calls (bad window / filter / keyword) followed by valid ones, series with read-only stored arrays, series built from
+  integer arrays, windows that keep 0 / 1 / 2 samples or are reversed, windows / thresholds / flags in other spellings (list,
+  ndarray, ints, numpy scalars, a threshold OBJECT re-used by the caller), options that are given but do nothing, and the other
+  public entry points that report peaks: `TimeSeries.stats(include_sample)` and `qats.app.funcs.calculate_trace`.
+* every call of the implementation is wrapped: an exception is a failing clause (or a disagreement for `average_frequency`,
+  which is tied to the model only: `up` on/off, non-uniform times, `TimeSeries.average_frequency/average_period`).
+
+Defects of the unchanged tree found by these inputs are reported through the matchers named in `FINDINGS` (switchable).
 """
 import itertools
+import math
+import os
 from fractions import Fraction
 
 import numpy as np
@@ -24,13 +48,31 @@ import numpy as np
 from .. import core
 from ..core import rat
 
+# Inputs on which the UNCHANGED tree violates a clause (reported to the lead; each class of inputs can be switched off here and is
+# recognised by a narrow matcher registered under the id on the left, for known_findings.json):
+#   C14-U1  find_maxima(local=True) on an integer array whose np.diff wraps (any unsigned dtype; int16 with swings >= 2**15):
+#           interior peaks are missed / invented
+#   (a threshold OBJECT re-used by the caller, 0-d / 1-element ndarray, was negated in place by TimeSeries.minima: repaired in /repo
+#    67edf2c while this was written; the inputs are generated unconditionally)
+#   C14-U3  TimeSeries.minima raises (UFuncTypeError, `x *= -1.`) when the caller has assigned an integer array to `ts.x`
+FINDINGS = {"C14-U1": True, "C14-U3": True}
+if os.environ.get("VERIF_C14_FINDINGS", "") == "off":          # e.g. to look at a seeded change without the classes in the way
+    FINDINGS = {k: False for k in FINDINGS}
+
 RULE = ("all words over {0,1,2,3} of length 1..7 (quick) / 9 (thorough) plus seeded random integer signals (length <= 80, plateaus, few "
         "crossings; about a third of them in another unit = times 2**p, p in -200..200, and / or on a large offset up to 2**30 units) "
         "x local/global x thresholds (small integers, a value of the signal, mid level); affine maps a = 2**p (p in -200..200), b = a * k * (a signal value); non-trivial = at least one maximum found; distinct by (signal, mode, threshold). "
         "Query histories: every ordered pair (and triple, on 2 signals) of {maxima,minima} x {global,local} x {no window, inner window} on "
         "6 signals, plus seeded random histories of 2..8 queries (maxima/minima/max/min, thresholds, windows on/between/outside "
         "samples, rettime, 1 or 2 series sharing the source arrays, caller overwriting returned arrays); non-trivial = a step after "
-        "a minima()/maxima() call on the same series returns at least one extremum")
+        "a minima()/maxima() call on the same series returns at least one extremum. "
+        "Histories also contain: the caller replacing / editing / negating the stored signal between queries, rejected calls, read-only "
+        "stored arrays, integer source arrays, windows keeping 0/1/2 samples or reversed, other spellings of window / threshold / "
+        "flags / positional arguments / do-nothing options, stats(include_sample) and calculate_trace. "
+        "Stream spell: a random 8 % of the (signal, mode, threshold) cases above handed to find_maxima in another container / number "
+        "type / argument style, called twice on the same array. Stream float: seeded real-valued signals (sines + noise, walks, "
+        "decimal-quantised, slow, large mean, decimal units; length 8..160) x find_maxima / TimeSeries.maxima / minima x local/global "
+        "x thresholds (none, a sample, between samples) x windows; skipped when a sample is within n*2**-52*max|x| of the mean")
 
 
 def canon(vals, idx):
@@ -70,6 +112,308 @@ def ref_global(x):
 
 def ref_local(x):
     return sorted((x[i], i) for i in range(1, len(x) - 1) if x[i - 1] <= x[i] and x[i + 1] < x[i])
+
+
+# ---- spellings of the same signal / threshold / arguments ----------------------------------------------------------------------------
+NOEXC = "the query returns (no exception)"
+SP_REF = "%s maxima are exactly the %s (threshold only removes values below it), whatever container / number type / argument style is used"
+SP_VAL = "maxima are the signal values at the returned positions (of the array that was passed)"
+SP_ASC = "maxima in ascending order"
+SP_AGAIN = "a second call on the same array (the caller having overwritten the arrays returned by the first) returns the same maxima"
+SP_INTACT = "find_maxima leaves the array it was handed as it was"
+SP_EDIT = "after the caller has reversed its array in place, find_maxima returns the maxima of the array as it is now"
+INT_BITS = {"i64": 64, "i32": 32, "i16": 16, "u8": 8, "u16": 16, "u32": 32, "u64": 64}
+INT_DTYPE = {"i64": np.int64, "i32": np.int32, "i16": np.int16, "u8": np.uint8, "u16": np.uint16, "u32": np.uint32, "u64": np.uint64}
+ARG_STYLES = ("kw", "kw", "pos", "pos_up", "up_false", "x_kw")
+
+
+def is_int(v):
+    return Fraction(v).denominator == 1
+
+
+def diff_wraps(kind, x):
+    """np.diff on this integer container wraps around, for the signal or for the signal reversed (the spell stream calls find_maxima
+    on both): unsigned: any step; signed: a step >= 2**(bits-1)"""
+    if kind not in INT_BITS:
+        return False
+    d = [b - a for a, b in zip(x, x[1:])]
+    if kind.startswith("u"):
+        return any(v != 0 for v in d)
+    return any(abs(v) >= 2 ** (INT_BITS[kind] - 1) for v in d)
+
+
+def containers_for(x):
+    """the container kinds in which the exact signal x can be stored without changing a value"""
+    out = ["f64", "strided", "reversed", "col2d", "readonly"]
+    if all(is_int(v) for v in x):
+        lo, hi = min(x), max(x)
+        for k, b in INT_BITS.items():
+            if k.startswith("u"):
+                ok = lo >= 0 and hi < 2 ** min(b, 62)
+            else:
+                ok = -2 ** min(b - 1, 62) < lo and hi < 2 ** min(b - 1, 62)
+            if ok and (FINDINGS["C14-U1"] or not diff_wraps(k, x)):
+                out.append(k)
+    if all(is_int(2 * v) and abs(v) <= 2 ** 15 for v in x):
+        out.append("f32")                                   # sums of <= 160 such values are exact in single precision
+    return out
+
+
+def make_container(kind, x):
+    xf = [float(v) for v in x]
+    n = len(xf)
+    if kind in INT_DTYPE:
+        return np.array([int(v) for v in x], dtype=INT_DTYPE[kind])
+    if kind == "f32":
+        return np.array(xf, dtype=np.float32)
+    if kind == "strided":
+        buf = np.full(2 * n, 777.0)
+        buf[::2] = xf
+        return buf[::2]
+    if kind == "reversed":
+        return np.array(xf[::-1])[::-1]
+    if kind == "col2d":
+        a = np.full((n, 3), -777.0)
+        a[:, 1] = xf
+        return a[:, 1]
+    a = np.array(xf)
+    if kind == "readonly":
+        a.flags.writeable = False
+    return a
+
+
+def thr_kinds(thr, arrays=True):
+    if thr is None:
+        return ["none"]
+    out = ["float", "np.float64"] + (["arr0d", "arr1"] if arrays else [])
+    if is_int(thr) and abs(thr) < 2 ** 62:
+        out += ["int", "np.int64"]
+    if abs(thr) <= 2 ** 15 and is_int(2 * thr):
+        out.append("np.float32")
+    return out
+
+
+def make_thr(kind, thr):
+    if thr is None:
+        return None
+    return {"float": float, "int": int, "np.float64": lambda v: np.float64(float(v)), "np.int64": lambda v: np.int64(int(v)),
+            "np.float32": lambda v: np.float32(float(v)), "arr0d": lambda v: np.array(float(v)),
+            "arr1": lambda v: np.array([float(v)])}[kind](thr)
+
+
+def make_flag(kind, b):
+    return {"bool": bool, "int": int, "np.bool_": np.bool_}[kind or "bool"](b)
+
+
+def rand_spell(rng, x, thr):
+    kinds = containers_for(x)
+    c = rng.choice(kinds)
+    if c.startswith("u") and rng.random() < 0.7:
+        c = rng.choice([k for k in kinds if not k.startswith("u")])
+    return dict(container=c, thr=rng.choice(thr_kinds(thr)), args=rng.choice(ARG_STYLES), local=rng.choice(["bool", "bool", "int", "np.bool_"]))
+
+
+def exact_pairs(vals, idx):
+    """sorted (value, position) with the values as exact rationals, for any dtype"""
+    return sorted((Fraction(np.asarray(v).item()), int(i)) for v, i in zip(vals, idx))
+
+
+def call_find_maxima(c, loc, T, sp):
+    from qats.signal import find_maxima
+    L = make_flag(sp.get("local"), loc)
+    a = sp.get("args", "kw")
+    if a == "pos":
+        return find_maxima(c, L, T)
+    if a == "pos_up":
+        return find_maxima(c, L, T, True)
+    if a == "up_false":
+        return find_maxima(c, local=L, threshold=T, up=False)       # deprecated: documented to have no effect
+    if a == "x_kw":
+        return find_maxima(threshold=T, x=c, local=L)
+    return find_maxima(c, local=L, threshold=T)
+
+
+def eval_spell(x, loc, thr, sp):
+    """find_maxima on the exact signal x in the spelling sp, twice on the same array.  Returns (got | None, [(oracle, exp, obs)])"""
+    fails = []
+    ref = ref_extrema(x, "maxima", loc, thr)
+    what = (("local" if loc else "global"), "interior peaks" if loc else "first-position largest value of each closed excursion above the mean")
+    try:
+        c = make_container(sp["container"], x)
+        keep, dt = c.copy(), c.dtype
+        T = make_thr(sp["thr"], thr)
+        m, ind = call_find_maxima(c, loc, T, sp)
+        m, ind = np.asarray(m), np.asarray(ind)
+        got = exact_pairs(m, ind)
+        if got != ref:
+            fails.append((SP_REF % what, [(str(a), b) for a, b in ref], [(str(a), b) for a, b in got]))
+        if m.shape != ind.shape or any(not (0 <= int(i) < len(x)) or Fraction(np.asarray(v).item()) != x[int(i)] for v, i in zip(m, ind)):
+            fails.append((SP_VAL, "x[ind]", [m.tolist(), ind.tolist()]))
+        if any(b < a for a, b in zip(m.tolist(), m.tolist()[1:])):
+            fails.append((SP_ASC, "ascending", m.tolist()))
+        for arr in (m, ind):                                  # the caller re-uses what it was handed
+            if arr.size and arr.flags.writeable:
+                arr[...] = 77
+        if c.dtype != dt or not np.array_equal(c, keep):
+            fails.append((SP_INTACT, keep.tolist()[:40], c.tolist()[:40]))
+        m2, i2 = call_find_maxima(c, loc, T, sp)
+        got2 = exact_pairs(m2, i2)
+        if got == ref and got2 != ref:
+            fails.append((SP_AGAIN, [(str(a), b) for a, b in ref], [(str(a), b) for a, b in got2]))
+        if (c.dtype != dt or not np.array_equal(c, keep)) and not any(f[0] == SP_INTACT for f in fails):
+            fails.append((SP_INTACT, keep.tolist()[:40], c.tolist()[:40]))
+        if not fails and c.flags.writeable and len(x) >= 3:
+            c[:] = keep[::-1]                                 # the caller's own edit, same array object
+            ref3 = ref_extrema(x[::-1], "maxima", loc, thr)
+            got3 = exact_pairs(*call_find_maxima(c, loc, T, sp))
+            if got3 != ref3:
+                fails.append((SP_EDIT, [(str(a), b) for a, b in ref3], [(str(a), b) for a, b in got3]))
+        return got, fails
+    except Exception as e:                                  # noqa
+        fails.append((NOEXC, [(str(a), b) for a, b in ref], "err:%s:%s" % (type(e).__name__, str(e)[:80])))
+        return None, fails
+
+
+def is_u1(f):
+    """C14-U1: local maxima of an integer container on which np.diff wraps"""
+    i = f.get("input") or {}
+    sp = i.get("spell") or {}
+    return i.get("what") == "spell" and i.get("mode") == "local" and sp.get("container") in INT_BITS and \
+        diff_wraps(sp["container"], [Fraction(v) for v in i["x"]])
+
+
+# ---- noisy real-valued signals --------------------------------------------------------------------------------------------------
+FL_REF = "%s %s are exactly the %s of the (windowed) float signal, evaluated in exact rationals on the samples"
+FL_VAL = "returned extrema are bit-identical to the signal samples at the returned positions, times to the stored times at those positions"
+FL_SCALE = "scaling the signal by 2**p (exact in floating point) keeps the positions and scales the maxima"
+FL_MIRROR = "minima are the mirrored maxima of the negated signal (threshold negated too), bit for bit"
+
+
+def rand_float_case(rng):
+    n = rng.choice([8, 12, 20, 33, 64, 100, 160])
+    k = rng.random()
+    w1, w2 = rng.uniform(0.05, 0.9), rng.uniform(0.3, 2.5)
+    p1, p2 = rng.uniform(0, 6.3), rng.uniform(0, 6.3)
+    a2, s = rng.choice([0.0, 0.3, 1.0]), rng.choice([0.0, 0.05, 0.3, 1.0])
+    if k < 0.35:
+        x = [math.sin(w1 * i + p1) + a2 * math.sin(w2 * i + p2) + s * rng.gauss(0, 1) for i in range(n)]
+    elif k < 0.5:
+        v, x = 0.0, []
+        for _ in range(n):
+            v += rng.gauss(0, 1)
+            x.append(v)
+    elif k < 0.8:                                           # decimal-quantised: plateaus and exact ties at non-dyadic values
+        amp, d = rng.choice([1, 3, 10]), rng.choice([0, 1, 1, 2])
+        x = [round(amp * (math.sin(w1 * i + p1) + a2 * math.sin(w2 * i + p2)) + s * rng.gauss(0, 1), d) for i in range(n)]
+    else:                                                   # slow oscillation: few or no crossings
+        per = n * rng.uniform(0.6, 3.0)
+        x = [math.sin(6.283185307179586 * i / per + p1) + 1e-3 * s * rng.gauss(0, 1) for i in range(n)]
+    r = rng.random()
+    if r < 0.2:
+        off = rng.choice([1e3, -1e6, 273.15, 1e9, -0.1])
+        x = [v + off for v in x]
+    elif r < 0.4:
+        u = 10.0 ** rng.randint(-12, 12)
+        x = [v * u for v in x]
+    dt = rng.choice([0.1, 0.05, 0.01, 0.5, 1.0 / 3.0, 2.0])
+    t0 = rng.choice([0.0, 0.0, -1.7, 1000.0, 86400.0])
+    if rng.random() < 0.75:
+        t = [t0 + i * dt for i in range(n)]
+    else:
+        t = [t0]
+        for _ in range(n - 1):
+            t.append(t[-1] + dt * rng.choice([1, 1, 2, 3]))
+    via = rng.choice(["find_maxima", "maxima", "minima", "minima"])
+    twin = None
+    if via != "find_maxima" and rng.random() < 0.5:
+        a = rng.randint(0, n - 4)
+        b = rng.randint(a + 3, n - 1)
+        lo = t[a] if (a == 0 or rng.random() < 0.6) else (t[a] + t[a - 1]) / 2
+        hi = t[b] if (b == n - 1 or rng.random() < 0.6) else (t[b] + t[b + 1]) / 2
+        twin = [lo.hex(), hi.hex()]
+    q = rng.random()
+    thr = None if q < 0.4 else rng.choice(x) if q < 0.7 else (rng.choice(x) + rng.choice(x)) / 2 if q < 0.9 else sum(x) / n
+    return dict(kind="float", x=[v.hex() for v in x], t=[v.hex() for v in t], via=via, local=rng.random() < 0.5,
+                threshold=None if thr is None else float(thr).hex(), twin=twin, p=rng.choice([-200, -60, -3, 1, 10, 52, 200]))
+
+
+def float_window(c):
+    xf = np.array([float.fromhex(v) for v in c["x"]])
+    tf = np.array([float.fromhex(v) for v in c["t"]])
+    if c["twin"] is None:
+        return xf, tf, list(range(len(xf))), None
+    tw = (float.fromhex(c["twin"][0]), float.fromhex(c["twin"][1]))
+    return xf, tf, [i for i in range(len(tf)) if tw[0] <= tf[i] <= tw[1]], tw
+
+
+def float_ambiguous(xq, loc):
+    """rounding of the float mean can change which samples count as above the mean (global mode only)"""
+    if loc or not xq:
+        return False
+    m = Fraction(sum(xq), len(xq))
+    tol = len(xq) * Fraction(1, 2 ** 52) * max(abs(v) for v in xq)
+    return any(abs(v - m) <= tol for v in xq)
+
+
+def float_request(c):
+    xf, tf, sel, tw = float_window(c)
+    return "pk.%s %s %s %s" % ("min" if c["via"] == "minima" else "max", "local" if c["local"] else "global",
+                               "-" if c["threshold"] is None else rat(Fraction(float.fromhex(c["threshold"]))),
+                               " ".join(rat(Fraction(float(xf[i]))) for i in sel))
+
+
+def eval_float(c):
+    """returns (got | None, ambiguous, [(oracle, expected, observed)]); got = sorted (value, position in the whole signal)"""
+    from qats.signal import find_maxima
+    from qats import TimeSeries
+    fails = []
+    xf, tf, sel, tw = float_window(c)
+    xq = [Fraction(float(xf[i])) for i in sel]
+    loc, via = bool(c["local"]), c["via"]
+    thr = None if c["threshold"] is None else float.fromhex(c["threshold"])
+    thq = None if thr is None else Fraction(thr)
+    amb = float_ambiguous(xq, loc)
+    off = sel[0] if sel else 0
+    ref = [(v, i + off) for v, i in ref_extrema(xq, "minima" if via == "minima" else "maxima", loc, thq)]
+    what = ("local" if loc else "global", "minima" if via == "minima" else "maxima",
+            ("interior %s" if loc else "first-position excursion %s") % ("troughs" if via == "minima" else "peaks"))
+    try:
+        if via == "find_maxima":
+            m, ind = find_maxima(xf, local=loc, threshold=thr)
+            tm = tf[ind]
+        else:
+            ts = TimeSeries("s", tf.copy(), xf.copy())
+            m, tm = getattr(ts, via)(twin=tw, local=loc, threshold=thr, rettime=True)
+            pos = {float(v): i for i, v in enumerate(tf)}
+            if np.shape(m) != np.shape(tm) or any(float(v) not in pos for v in tm):
+                fails.append((FL_VAL, "times of samples", [np.asarray(m).tolist(), np.asarray(tm).tolist()]))
+                return None, amb, fails
+            ind = np.array([pos[float(v)] for v in tm], dtype=int)
+        got = exact_pairs(m, ind)
+        if any(float(xf[i]) != float(v) or float(tf[i]) != float(w) for v, w, i in zip(m, tm, ind)):
+            fails.append((FL_VAL, "x[ind], t[ind]", [np.asarray(m).tolist(), np.asarray(tm).tolist()]))
+        mm = np.asarray(m) if via != "minima" else -np.asarray(m)
+        if any(b < a for a, b in zip(mm, mm[1:])):
+            fails.append((H_ASC, "ascending", np.asarray(m).tolist()))
+        if not amb and got != ref:
+            fails.append((FL_REF % what, [(float(a), b) for a, b in ref], [(float(a), b) for a, b in got]))
+        xw = xf[sel]
+        if via == "minima":
+            m2, i2 = find_maxima(-xw, local=loc, threshold=None if thr is None else -thr)
+            if exact_pairs(-m2, i2 + off) != got:
+                fails.append((FL_MIRROR, [(float(a), b) for a, b in exact_pairs(-m2, i2 + off)], [(float(a), b) for a, b in got]))
+        else:
+            u = 2.0 ** c["p"]
+            big = max([abs(float(v)) for v in xw] + [abs(thr or 0.0)] + [1e-300])
+            small = min([abs(float(v)) for v in xw if v != 0] + [1.0])
+            if big * u < 1e300 and small * u > 1e-270:
+                m2, i2 = find_maxima(xw * u, local=loc, threshold=None if thr is None else thr * u)
+                if sorted((Fraction(float(v)) / Fraction(u), int(i) + off) for v, i in zip(m2, i2)) != got:
+                    fails.append((FL_SCALE, [(float(a) * u, b) for a, b in got], [(float(v), int(i) + off) for v, i in zip(m2, i2)]))
+        return got, amb, fails
+    except Exception as e:                                  # noqa
+        fails.append((NOEXC, [(float(a), b) for a, b in ref], "err:%s:%s" % (type(e).__name__, str(e)[:80])))
+        return None, amb, fails
 
 
 UNIT_EXP = (-200, -150, -100, -70, -60, -55, -52, -50, -45, -30, -10, 10, 30, 52, 60, 100, 200)
@@ -145,6 +489,8 @@ AFFINE = "a positive affine map of the signal maps the maxima and keeps their po
 
 def ref_extrema(x, q, local, thr):
     """reference for one maxima/minima query on the (windowed) exact signal: sorted (value, position)"""
+    if len(x) == 0:
+        return []
     if q == "maxima":
         r = ref_local(x) if local else ref_global(x)
         return [(v, i) for v, i in r if thr is None or v >= thr]
@@ -195,15 +541,82 @@ def rand_twin(rng, t):
     return (lo, hi)
 
 
-def mk_op(q, obj=0, local=False, thr=None, twin=None, rettime=True, scribble=False):
+def mk_op(q, obj=0, local=False, thr=None, twin=None, rettime=True, scribble=False, sp=None):
     op = dict(obj=obj, q=q, twin=None if twin is None else [str(twin[0]), str(twin[1])])
     if q in ("maxima", "minima"):
         op.update(local=bool(local), threshold=None if thr is None else str(thr), rettime=bool(rettime), scribble=bool(scribble))
+        if sp:
+            op["sp"] = sp
     return op
 
 
-def mk_hist(x, t, ops, objects=1):
-    return dict(kind="history", x=[str(v) for v in x], t=[str(v) for v in t], objects=objects, ops=ops)
+def mk_hist(x, t, ops, objects=1, readonly=False, src="f64"):
+    h = dict(kind="history", x=[str(v) for v in x], t=[str(v) for v in t], objects=objects, ops=ops)
+    if readonly:
+        h["readonly"] = True
+    if src != "f64":
+        h["src"] = src
+    return h
+
+
+BAD_CALLS = ("twin1", "filter", "thr_str", "resample_twin", "kw")
+SETX_HOW = ("assign", "assign", "inplace", "items", "negate", "assign_int")
+TWIN_KINDS = ("tuple", "tuple", "list", "array", "npf", "int")
+
+
+def small_twin(rng, t):
+    """windows that keep 0, 1 or 2 samples, reversed windows, windows outside the series"""
+    n = len(t)
+    a = rng.randrange(n)
+    k = rng.random()
+    if k < 0.25:
+        return (t[a], t[a])                                              # one sample
+    if k < 0.45 and a + 1 < n:
+        return (t[a], t[a + 1])                                          # two samples
+    if k < 0.6 and a + 1 < n:
+        d = (t[a + 1] - t[a]) / 4
+        return (t[a] + d, t[a + 1] - d)                                  # between two samples: nothing
+    if k < 0.8:
+        return (t[min(a + 2, n - 1)], t[a]) if a + 2 < n else (t[-1] + 1, t[-1] + 5)      # reversed / beyond the end
+    return (t[0] - 9, t[0] - 1)
+
+
+def mutate_signal(rng, x):
+    n = len(x)
+    k = rng.random()
+    y = list(x)
+    if k < 0.3:                                                          # a new extreme somewhere inside
+        i = rng.randrange(1, n - 1) if n > 2 else 0
+        w = next((abs(v) for v in x if v != 0), Fraction(1))             # stays in the unit of the signal (exactly representable)
+        y[i] = (max(x) + (max(x) - min(x)) + w) * rng.choice([1, -1]) if rng.random() < 0.5 else (min(x) + max(x)) / 2
+    elif k < 0.5:                                                        # a peak flattened into a plateau
+        i = rng.randrange(n - 1)
+        y[i + 1] = y[i]
+    elif k < 0.65:
+        y = [-v for v in x]
+    elif k < 0.8:
+        u = rand_unit(rng)
+        y = [v * u for v in x]
+    else:
+        y = rand_signal(rng, n)
+    if any(Fraction(float(v)) != v for v in y):                          # keep the exact reference honest
+        y = [-v for v in x]
+    return y
+
+
+def rand_sp(rng, q, thr, tw):
+    sp = dict(args=rng.choice(["kw", "kw", "pos", "noop"]), local=rng.choice(["bool", "bool", "int", "np.bool_"]))
+    if sp["args"] == "noop":
+        sp["noop"] = rng.randrange(3)
+    if thr is not None:
+        kinds = [k for k in thr_kinds(thr) if k != "np.float32"]
+        sp["thr"] = rng.choice(kinds)
+    if tw is not None:
+        k = rng.choice(TWIN_KINDS)
+        if k == "int" and not (is_int(tw[0]) and is_int(tw[1])):
+            k = "list"
+        sp["twin"] = k
+    return sp
 
 
 def gen_histories(chk):
@@ -218,96 +631,260 @@ def gen_histories(chk):
         for d in depth:
             for combo in itertools.product(base, repeat=d):
                 yield mk_hist(x, t, [mk_op(q, local=loc, twin=tw) for q, loc, tw in combo])
+    # (a2) systematic: query - the caller changes the signal - the same query again, for every base query and every way of changing
+    for k, x in enumerate(sigs[:4]):
+        t = [Fraction(i, 4) - 1 for i in range(len(x))]
+        base = [(q, loc, tw) for q in ("maxima", "minima") for loc in (False, True) for tw in (None, (t[1], t[-2]))]
+        for (q, loc, tw), how in itertools.product(base, ("assign", "inplace", "items", "negate")):
+            y = [-v for v in x] if how == "negate" else mutate_signal(rng, x)
+            yield mk_hist(x, t, [mk_op(q, local=loc, twin=tw), dict(obj=0, q="setx", how=how, values=[str(v) for v in y]),
+                                 mk_op(q, local=loc, twin=tw), mk_op("max", twin=tw), mk_op("min", twin=tw)])
     # (b) seeded random histories
     for _ in range(500 if chk.quick else 6000):
         n = rng.choice([3, 5, 8, 13, 21, 40])
         x, t = rand_signal(rng, n), rand_times(rng, n)
         objects = 1 if rng.random() < 0.75 else 2
+        cur = [list(x) for _ in range(objects)]
         ops = []
+        last = None
         for _ in range(rng.randint(2, 8)):
-            q = rng.choice(["maxima", "minima", "minima", "maxima", "max", "min"])
-            thr = rand_threshold(rng, x)
-            ops.append(mk_op(q, obj=rng.randrange(objects), local=rng.random() < 0.5, thr=thr, twin=rand_twin(rng, t),
-                             rettime=rng.random() < 0.8, scribble=rng.random() < 0.3))
-        yield mk_hist(x, t, ops, objects)
+            q = rng.choice(["maxima", "minima", "minima", "maxima", "max", "min", "maxima", "minima", "setx", "setx", "bad", "stats", "trace"])
+            obj = rng.randrange(objects)
+            tw = rand_twin(rng, t) if rng.random() < 0.85 else small_twin(rng, t)
+            nsel = len(window_of(t, tw))
+            if q in ("max", "min") and nsel == 0:
+                tw = None
+            if q == "setx":
+                how = rng.choice(SETX_HOW)
+                y = [-v for v in cur[obj]] if how == "negate" else mutate_signal(rng, cur[obj])
+                if how == "assign_int" and not (FINDINGS["C14-U3"] and all(is_int(v) and abs(v) < 2 ** 62 for v in y)):
+                    how = "assign"
+                cur[obj] = y
+                ops.append(dict(obj=obj, q="setx", how=how, values=[str(v) for v in y]))
+            elif q == "bad":
+                ops.append(dict(obj=obj, q="bad", call=rng.choice(["maxima", "minima", "minima", "max"]), how=rng.choice(BAD_CALLS)))
+            elif q == "stats":
+                ops.append(dict(obj=obj, q="stats", is_minima=rng.random() < 0.5, via=rng.choice(["stats", "funcs"]),
+                                twin=None if (tw is None or nsel < 5) else [str(tw[0]), str(tw[1])]))
+            elif q == "trace":
+                ops.append(dict(obj=obj, q="trace", twin=None if tw is None else [str(tw[0]), str(tw[1])],
+                                container=rng.choice(["dict", "ordered", "two"])))
+            else:
+                thr = rand_threshold(rng, cur[obj])
+                if last is not None and rng.random() < 0.3:
+                    thr = last                                           # the caller re-uses its threshold
+                last = thr if thr is not None else last
+                sp = rand_sp(rng, q, thr, tw) if (q in ("maxima", "minima") and rng.random() < 0.5) else None
+                ops.append(mk_op(q, obj=obj, local=rng.random() < 0.5, thr=thr, twin=tw, rettime=rng.random() < 0.8,
+                                 scribble=rng.random() < 0.3, sp=sp))
+        src = "i64" if (rng.random() < 0.3 and all(is_int(v) and abs(v) < 2 ** 62 for v in x)) else "f64"
+        yield mk_hist(x, t, ops, objects, readonly=rng.random() < 0.25, src=src)
 
 
-def hist_requests(h):
-    """one model request per maxima/minima step (the model sees the windowed original signal)"""
-    x = [Fraction(v) for v in h["x"]]
-    t = [Fraction(v) for v in h["t"]]
+def hist_states(h):
+    """the exact signal of the queried series before every step (the caller's changes applied)"""
+    cur = [[Fraction(v) for v in h["x"]] for _ in range(h["objects"])]
     out = []
     for op in h["ops"]:
-        if op["q"] not in ("maxima", "minima"):
-            out.append(None)
-            continue
-        tw = None if op["twin"] is None else (Fraction(op["twin"][0]), Fraction(op["twin"][1]))
-        sel = window_of(t, tw)
-        out.append("pk.%s %s %s %s" % ("max" if op["q"] == "maxima" else "min", "local" if op["local"] else "global",
-                                       "-" if op["threshold"] is None else rat(Fraction(op["threshold"])),
-                                       " ".join(rat(x[i]) for i in sel)))
+        out.append(cur[op["obj"]])
+        if op["q"] == "setx":
+            cur[op["obj"]] = [Fraction(v) for v in op["values"]]
     return out
 
 
+def hist_requests(h):
+    """per step the list of model requests: one per maxima / minima / stats step, two per trace step (the model sees the windowed
+    current signal)"""
+    t = [Fraction(v) for v in h["t"]]
+    out = []
+    for op, x in zip(h["ops"], hist_states(h)):
+        q = op["q"]
+        if q not in ("maxima", "minima", "stats", "trace"):
+            out.append([])
+            continue
+        tw = None if op["twin"] is None else (Fraction(op["twin"][0]), Fraction(op["twin"][1]))
+        xs = " ".join(rat(x[i]) for i in window_of(t, tw))
+        if q == "stats":
+            out.append(["pk.%s global - %s" % ("min" if op["is_minima"] else "max", xs)])
+        elif q == "trace":
+            out.append(["pk.max global - " + xs, "pk.min global - " + xs])
+        else:
+            out.append(["pk.%s %s %s %s" % ("max" if q == "maxima" else "min", "local" if op["local"] else "global",
+                                            "-" if op["threshold"] is None else rat(Fraction(op["threshold"])), xs)])
+    return out
+
+
+def spell_twin(kind, twq):
+    if twq is None:
+        return None
+    a, b = float(twq[0]), float(twq[1])
+    if kind == "list":
+        return [a, b]
+    if kind == "array":
+        return np.array([a, b])
+    if kind == "npf":
+        return (np.float64(a), np.float64(b))
+    if kind == "int":
+        return (int(twq[0]), int(twq[1]))
+    return (a, b)
+
+
+def call_extrema(ts, op, twq, T):
+    sp = op.get("sp") or {}
+    f = getattr(ts, op["q"])
+    W, L = spell_twin(sp.get("twin"), twq), make_flag(sp.get("local"), op["local"])
+    a = sp.get("args", "kw")
+    if a == "pos":
+        return f(W, L, T, op["rettime"])
+    if a == "noop":                                         # options that are given but do nothing
+        kw = [dict(resample=None, filterargs=None, window_len=None, taperfrac=None, window="rectangular"),
+              dict(taperfrac=0.0, window_len=0), dict(window="hanning", taperfrac=None)][sp.get("noop", 0)]
+        return f(twin=W, local=L, threshold=T, rettime=op["rettime"], **kw)
+    return f(twin=W, local=L, threshold=T, rettime=op["rettime"])
+
+
+def call_bad(ts, op):
+    kw = {"twin1": dict(twin=(1.0,)), "filter": dict(filterargs=("xx", 1.0)), "thr_str": dict(threshold="a"),
+          "resample_twin": dict(resample=np.arange(3.), twin=(0., 1.)), "kw": dict(nosuch=1)}[op["how"]]
+    try:
+        getattr(ts, op["call"])(**kw)
+    except Exception:                                       # noqa  (the call is allowed to be rejected; what follows must hold)
+        pass
+
+
 def eval_history(h, on_fail):
-    """run the queries of `h` in order on the implementation; evaluate the clauses after every step.
-    on_fail(oracle, step, expected, observed); stops after the first step with a wrong result.  Returns per step the observed
-    sorted [(value, position)] (rettime) / sorted [value] (no rettime) / None."""
+    """run the steps of `h` in order on the implementation; evaluate the clauses after every step.
+    on_fail(oracle, step, expected, observed); stops after the first step with a wrong result.  Returns per step a list aligned with
+    hist_requests(h)[step]: ("vp", sorted [(value, position)]) / ("v", sorted [value]) (no positions reported) / None."""
     from qats import TimeSeries
     x = [Fraction(v) for v in h["x"]]
     t = [Fraction(v) for v in h["t"]]
-    x0 = np.array([float(v) for v in x])
     t0 = np.array([float(v) for v in t])
+    x0 = np.array([int(v) for v in x], dtype=np.int64) if h.get("src") == "i64" else np.array([float(v) for v in x])
     src_x, src_t = x0.copy(), t0.copy()
     objs = [TimeSeries("s%d" % k, src_t, src_x) for k in range(h["objects"])]      # all built from the same arrays
+    if h.get("readonly"):
+        for o in objs:
+            o.x.flags.writeable = False
+            o.t.flags.writeable = False
+    cur = [list(x) for _ in objs]                                                  # exact signal every series should hold now
+    cur_f = [np.array([float(v) for v in x]) for _ in objs]
     pos = {float(v): i for i, v in enumerate(t)}
-    seen = [None] * len(h["ops"])
+    thr_objs = {}
+    seen = [[] for _ in h["ops"]]
     for step, op in enumerate(h["ops"]):
-        ts = objs[op["obj"]]
-        twq = None if op["twin"] is None else (Fraction(op["twin"][0]), Fraction(op["twin"][1]))
+        k = op["obj"]
+        ts, xc, q = objs[k], cur[k], op["q"]
+        twq = None if op.get("twin") is None else (Fraction(op["twin"][0]), Fraction(op["twin"][1]))
         tw = None if twq is None else (float(twq[0]), float(twq[1]))
         sel = window_of(t, twq)
-        xw, off = [x[i] for i in sel], sel[0]
+        xw, off = [xc[i] for i in sel], (sel[0] if sel else 0)
         bad = False
 
         def fail(oracle, expected, observed):
             nonlocal bad
             bad = bad or oracle not in (H_READBACK, H_INTACT)      # a wrong result ends the history; an altered series does not:
             on_fail(oracle, step, expected, observed)              # the following queries show what it does to the results
+
+        def positions(m, tm, ref, what):
+            """positions of the reported times; None (and a failing clause) when they are not times of samples of the window"""
+            m, tm = np.asarray(m), np.asarray(tm)
+            if m.shape != tm.shape or any(float(v) not in pos for v in tm):
+                fail(H_ORDER % what, [(str(a), str(t[b])) for a, b in ref], [m.tolist(), tm.tolist()])
+                return None
+            return [pos[float(v)] for v in tm]
         try:
-            if op["q"] in ("max", "min"):
-                v = getattr(ts, op["q"])(twin=tw) if tw is not None else getattr(ts, op["q"])()
-                e = max(xw) if op["q"] == "max" else min(xw)
+            if q == "setx":
+                y = [Fraction(v) for v in op["values"]]
+                how = op["how"] if not (h.get("readonly") or (ts.x.dtype.kind != "f" and op["how"] != "assign_int")) else "assign"
+                yf = np.array([float(v) for v in y])
+                if how == "assign_int":
+                    ts.x = np.array([int(v) for v in y], dtype=np.int64)
+                elif how == "inplace":
+                    ts.x[:] = yf
+                elif how == "items":
+                    for i, (a, b) in enumerate(zip(xc, y)):
+                        if a != b:
+                            ts.x[i] = float(b)
+                elif how == "negate":
+                    ts.x *= -1
+                else:
+                    ts.x = yf.copy()
+                    if h.get("readonly"):
+                        ts.x.flags.writeable = False
+                cur[k], cur_f[k] = y, yf
+            elif q == "bad":
+                call_bad(ts, op)
+            elif q in ("max", "min"):
+                v = getattr(ts, q)(twin=tw) if tw is not None else getattr(ts, q)()
+                e = max(xw) if q == "max" else min(xw)
                 if Fraction(float(v)) != e:
                     fail(H_MAXMIN, str(e), float(v))
+            elif q == "stats":
+                ref = ref_extrema(xw, "minima" if op["is_minima"] else "maxima", False, None)
+                kw = {} if tw is None else dict(twin=tw)
+                if op.get("via") == "funcs":
+                    from qats.app.funcs import calculate_stats
+                    s = calculate_stats({"s": ts}, tw, None, minima=op["is_minima"])["s"]["sample"]
+                else:
+                    s = ts.stats(include_sample=True, is_minima=op["is_minima"], **kw)["sample"]
+                got = sorted(Fraction(float(v)) for v in np.asarray(s).reshape(-1))
+                seen[step] = [("v", got)]
+                if got != sorted(v for v, _ in ref):
+                    fail(H_ORDER % ("global %s (sample reported by TimeSeries.stats)" % ("minima" if op["is_minima"] else "maxima")),
+                         [str(a) for a, _ in ref], [str(a) for a in got])
+            elif q == "trace":
+                from collections import OrderedDict
+                from qats.app.funcs import calculate_trace
+                cont = {"dict": lambda: {"s": ts}, "ordered": lambda: OrderedDict(s=ts),
+                        "two": lambda: {"a": objs[0], "s": ts, "z": objs[-1]}}[op.get("container", "dict")]()
+                d = calculate_trace(cont, tw, None)["s"]
+                res = []
+                for qq, mk, tk in (("maxima", "xmax", "tmax"), ("minima", "xmin", "tmin")):
+                    ref = [(v, i + off) for v, i in ref_extrema(xw, qq, False, None)]
+                    what = "global %s (reported by qats.app.funcs.calculate_trace)" % qq
+                    ind = positions(d[mk], d[tk], ref, what)
+                    got = None if ind is None else canon(d[mk], ind)
+                    res.append(None if got is None else ("vp", got))
+                    if got is not None and got != ref:
+                        fail(H_ORDER % what, [(str(a), b) for a, b in ref], [(str(a), b) for a, b in got])
+                seen[step] = res
+                dx, dt_ = np.asarray(d["x"]), np.asarray(d["t"])
+                if dx.tolist() != [float(v) for v in xw] or dt_.tolist() != [float(t[i]) for i in sel]:
+                    fail(H_ORDER % "trace (signal and times of the window, as plotted with the peaks)", [str(v) for v in xw][:40], dx.tolist()[:40])
             else:
                 thr = None if op["threshold"] is None else Fraction(op["threshold"])
-                ref = [(v, i + off) for v, i in ref_extrema(xw, op["q"], op["local"], thr)]
-                res = getattr(ts, op["q"])(twin=tw, local=op["local"], threshold=None if thr is None else float(thr),
-                                           rettime=op["rettime"])
-                what = "%s %s" % ("local" if op["local"] else "global", op["q"])
+                sp = op.get("sp") or {}
+                tk = sp.get("thr", "float")
+                if thr is None:
+                    T = None
+                elif tk in ("arr0d", "arr1"):                   # an object the caller keeps and hands in again
+                    T = thr_objs.setdefault((tk, thr), make_thr(tk, thr))
+                else:
+                    T = make_thr(tk, thr)
+                ref = [(v, i + off) for v, i in ref_extrema(xw, q, op["local"], thr)]
+                res = call_extrema(ts, op, twq, T)
+                what = "%s %s" % ("local" if op["local"] else "global", q)
                 if op["rettime"]:
                     m, tm = res
                     m, tm = np.asarray(m), np.asarray(tm)
-                    if m.shape != tm.shape or any(float(v) not in pos for v in tm):
-                        fail(H_ORDER % what, [(str(a), str(t[b])) for a, b in ref], [m.tolist(), tm.tolist()])
-                    else:
-                        ind = [pos[float(v)] for v in tm]
+                    ind = positions(m, tm, ref, what)
+                    if ind is not None:
                         got = canon(m, ind)
-                        seen[step] = got
+                        seen[step] = [("vp", got)]
                         if got != ref:
                             fail(H_ORDER % what, [(str(a), b) for a, b in ref], [(str(a), b) for a, b in got])
                         xn, tn = np.asarray(ts.x), np.asarray(ts.t)
-                        if xn.shape != x0.shape or any(float(xn[i]) != float(v) or float(tn[i]) != float(w) for v, w, i in zip(m, tm, ind)):
+                        if xn.shape != t0.shape or any(float(xn[i]) != float(v) or float(tn[i]) != float(w) for v, w, i in zip(m, tm, ind)):
                             fail(H_READBACK, "x[ind], t[ind]", dict(extrema=m.tolist(), times=tm.tolist(),
                                                                     x_now=xn.tolist()[:40], t_now=tn.tolist()[:40]))
                 else:
                     m = np.asarray(res)
                     got = sorted(Fraction(float(v)) for v in m)
-                    seen[step] = got
+                    seen[step] = [("v", got)]
                     if got != sorted(v for v, _ in ref):
                         fail(H_ORDER % what, [str(a) for a, _ in ref], [str(a) for a in got])
-                ma = m if op["q"] == "maxima" else -m
+                ma = m if q == "maxima" else -m
                 if any(b < a for a, b in zip(ma, ma[1:])):
                     fail(H_ASC, "ascending", m.tolist())
                 if op["scribble"]:                      # the caller re-uses the arrays it was handed
@@ -315,10 +892,10 @@ def eval_history(h, on_fail):
                         if isinstance(arr, np.ndarray) and arr.size and arr.flags.writeable:
                             arr[...] = 777.0
         except Exception as e:                          # noqa
-            fail("the query returns (no exception)", "result", "err:%s:%s" % (type(e).__name__, str(e)[:80]))
-        for k, o in enumerate(objs):
-            if not (np.array_equal(np.asarray(o.x), x0) and np.array_equal(np.asarray(o.t), t0)):
-                fail(H_INTACT, dict(x=x0.tolist()[:40]), dict(series=k, x_now=np.asarray(o.x).tolist()[:40], t_now=np.asarray(o.t).tolist()[:40]))
+            fail(NOEXC, "result", "err:%s:%s" % (type(e).__name__, str(e)[:80]))
+        for j, o in enumerate(objs):
+            if not (np.array_equal(np.asarray(o.x), cur_f[j]) and np.array_equal(np.asarray(o.t), t0)):
+                fail(H_INTACT, dict(x=cur_f[j].tolist()[:40]), dict(series=j, x_now=np.asarray(o.x).tolist()[:40], t_now=np.asarray(o.t).tolist()[:40]))
                 break
         if not (np.array_equal(src_x, x0) and np.array_equal(src_t, t0)):
             fail(H_INTACT, dict(x=x0.tolist()[:40]), dict(source_x_now=src_x.tolist()[:40], source_t_now=src_t.tolist()[:40]))
@@ -327,44 +904,122 @@ def eval_history(h, on_fail):
     return seen
 
 
+def is_u3(f):
+    """C14-U3: minima raises on a series to which the caller has assigned an integer array"""
+    i = f.get("input") or {}
+    ops = i.get("ops", []) if i.get("kind") == "history" else []
+    return bool(ops) and ops[-1].get("q") in ("minima", "trace") and f.get("oracle") == NOEXC and "UFuncTypeError" in str(f.get("observed")) and \
+        any(o.get("q") == "setx" and o.get("how") == "assign_int" and o.get("obj") == ops[-1].get("obj") for o in ops[:-1])
+
+
+def input_findings(c):
+    """the classes of FINDINGS an input belongs to (a switched-off class is not generated and its corpus entries are not run)"""
+    out = []
+    if is_u1(dict(input=c)):
+        out.append("C14-U1")
+    if c.get("kind") == "history" and any(o.get("q") == "setx" and o.get("how") == "assign_int" for o in c.get("ops", [])):
+        out.append("C14-U3")
+    return out
+
+
+def gen_adc(chk):
+    """integer-valued records as an acquisition system stores them (16-bit counts with large swings, unsigned counts)"""
+    rng = chk.rng
+    for _ in range(40 if chk.quick else 400):
+        n = rng.choice([3, 5, 8, 21, 60])
+        k = rng.random()
+        if k < 0.4:
+            yield [Fraction(rng.randint(-30000, 30000)) for _ in range(n)]
+        elif k < 0.7:
+            yield [Fraction(rng.randint(0, 255)) for _ in range(n)]
+        else:
+            yield [Fraction(rng.choice([-32767, -20000, 0, 0, 1, 20000, 32767])) for _ in range(n)]
+
+
+def record_spell(chk, x, loc, thr, sp, mod):
+    """stream `spell`: the clauses on find_maxima in another spelling; same model reply `mod` as the plain case"""
+    inp = dict(x=[str(v) for v in x], what="spell", mode="local" if loc else "global", threshold=None if thr is None else str(thr), spell=sp)
+    got, fails = eval_spell(x, loc, thr, sp)
+    chk.count("spell")
+    chk.dist("spell:%s:%s:%s" % (sp["container"], sp["thr"], sp["args"]))
+    for oracle, e, o in fails:
+        chk.fail(oracle, inp, e, o)
+    if got is not None and mod is not None and got != mod:
+        chk.disagree("pk.spell", inp, [(str(a), b) for a, b in mod], [(str(a), b) for a, b in got])
+    if got:
+        chk.nontriv(("spell", tuple(x), loc, thr, repr(sorted(sp.items()))))
+
+
 def run(chk):
     from qats.signal import find_maxima, average_frequency
     from qats import TimeSeries
     chk.extra["rule"] = RULE
     chk.assumptions += ["integer / dyadic signals: the float mean and all comparisons are exact",
-                        "order among equal-valued maxima is unspecified in the implementation (argsort): compared as sorted (value, position)"]
+                        "order among equal-valued maxima is unspecified in the implementation (argsort): compared as sorted (value, position)",
+                        "real-valued signals: the float mean differs from the exact mean by less than n * 2**-52 * max|x| (cases with a sample "
+                        "that close to the mean are counted and skipped for the reference and the model, not for the other clauses)"]
     rng = chk.rng
     drv = core.Driver()
-    corpus = core.load_corpus("C14")
-    cases = [[Fraction(v) for v in c["x"]] for c in corpus if c.get("kind") != "history"] + list(gen(chk))
+    corpus = [c for c in core.load_corpus("C14") if all(FINDINGS[k] for k in input_findings(c))]
+    adc = list(gen_adc(chk))
+    forced = set(id(x) for x in adc)
+    cases = [[Fraction(v) for v in c["x"]] for c in corpus if c.get("kind") is None and c.get("what") is None] + list(gen(chk)) + adc
     hists = [c for c in corpus if c.get("kind") == "history"] + list(gen_histories(chk))
+    floats = [c for c in corpus if c.get("kind") == "float"] + [rand_float_case(rng) for _ in range(900 if chk.quick else 9000)]
+    spelled = [c for c in corpus if c.get("what") == "spell"]
     lines, meta = [], []
+    for c in spelled:                                        # corpus: spelled cases that must always be tried first
+        x = [Fraction(v) for v in c["x"]]
+        thr = None if c.get("threshold") is None else Fraction(c["threshold"])
+        lines.append("pk.max %s %s %s" % (c["mode"], "-" if thr is None else rat(thr), " ".join(rat(v) for v in x)))
+        meta.append((x, "spell", c["mode"], thr, c["spell"]))
     for x in cases:
         xs = " ".join(rat(v) for v in x)
         thr = rand_threshold(rng, x)
         ts = "-" if thr is None else rat(thr)
         for loc in ("global", "local"):
-            lines.append("pk.max %s %s %s" % (loc, ts, xs)); meta.append((x, "max", loc, thr))
-        lines.append("pk.min %s %s %s" % (rng.choice(["global", "local"]), ts, xs)); meta.append((x, "min", lines[-1].split()[1], thr))
-        lines.append("pk.freq 1 %s | %s" % (" ".join(str(i) for i in range(len(x))), xs)); meta.append((x, "freq", None, None))
+            sp = rand_spell(rng, x, thr) if (id(x) in forced or rng.random() < 0.08) else None
+            if sp is not None and id(x) in forced and rng.random() < 0.7:
+                sp["container"] = rng.choice([k for k in containers_for(x) if k in INT_BITS] or ["f64"])
+            lines.append("pk.max %s %s %s" % (loc, ts, xs)); meta.append((x, "max", loc, thr, sp))
+        lines.append("pk.min %s %s %s" % (rng.choice(["global", "local"]), ts, xs)); meta.append((x, "min", lines[-1].split()[1], thr, None))
+        up = rng.random() < 0.6
+        tq = [Fraction(i) for i in range(len(x))] if rng.random() < 0.6 else rand_times(rng, len(x))
+        lines.append("pk.freq %d %s | %s" % (1 if up else 0, " ".join(rat(v) for v in tq), xs)); meta.append((x, "freq", up, tq, None))
     n_single = len(lines)
     hreq = []
     for h in hists:
         r = hist_requests(h)
-        r = [q for q in r if q is not None]
-        hreq.append(list(range(len(lines), len(lines) + len(r))))
-        lines += r
+        hreq.append([list(range(len(lines) + sum(len(q) for q in r[:k]), len(lines) + sum(len(q) for q in r[:k + 1]))) for k in range(len(r))])
+        lines += [q for step in r for q in step]
+    n_hist = len(lines)
+    lines += [float_request(c) for c in floats]
     outs = drv.run(lines)
-    for (x, what, loc, thr), o in zip(meta, outs[:n_single]):
+    for (x, what, loc, thr, sp), o in zip(meta, outs[:n_single]):
         xf = np.array([float(v) for v in x])
-        inp = dict(x=[str(v) for v in x], what=what, mode=loc, threshold=None if thr is None else str(thr))
-        chk.count("pk." + what)
+        chk.count("pk." + ("max" if what == "spell" else what))
         if what == "freq":
-            f = average_frequency(np.arange(len(x), dtype=float), xf)
+            up, tq = loc, thr
+            tf = np.array([float(v) for v in tq])
+            inp = dict(x=[str(v) for v in x], what=what, up=bool(up), t=[str(v) for v in tq])
             mv = None if o.strip() == "ok nan" else float(Fraction(o.split()[1]))
-            if (mv is None) != bool(np.isnan(f)) or (mv is not None and abs(mv - f) > 1e-12 * abs(f)):
-                chk.disagree("pk.freq", inp, mv, float(f))
+            obs = []
+            try:
+                obs.append(("average_frequency", average_frequency(tf, xf, up=up) if rng.random() < 0.7 else average_frequency(tf, xf, up)))
+                if up and len(x) >= 2 and rng.random() < 0.15:
+                    ts_ = TimeSeries("s", tf, xf)
+                    obs.append(("TimeSeries.average_frequency", ts_.average_frequency))
+                    obs.append(("1/TimeSeries.average_period", 1. / ts_.average_period))
+            except Exception as e:                                  # noqa  (tied to the model only: not a clause of the property)
+                obs.append(("average_frequency", "err:%s:%s" % (type(e).__name__, str(e)[:80])))
+            for name, f in obs:
+                if isinstance(f, str) or (mv is None) != bool(np.isnan(f)) or (mv is not None and abs(mv - f) > 1e-12 * abs(f)):
+                    chk.disagree("pk.freq", dict(inp, via=name), mv, f if isinstance(f, str) else float(f))
             continue
+        if what == "spell":
+            record_spell(chk, x, loc == "local", thr, sp, parse(o))
+            continue
+        inp = dict(x=[str(v) for v in x], what=what, mode=loc, threshold=None if thr is None else str(thr))
         t = np.arange(len(x), dtype=float) * 0.5 + 3.0
         try:
             if what == "max":
@@ -375,12 +1030,13 @@ def run(chk):
                 ind = np.round((tm - 3.0) / 0.5).astype(int)
             im = canon(m, ind)
         except Exception as e:
-            m, ind, im = None, None, "err:" + type(e).__name__
+            m, ind, im = None, None, "err:%s:%s" % (type(e).__name__, str(e)[:80])
         mod = parse(o)
         if im != mod:
-            if len(x) >= 2 or not isinstance(im, str):
-                chk.disagree("pk." + what, inp, [(str(a), b) for a, b in mod], im if isinstance(im, str) else [(str(a), b) for a, b in im])
+            chk.disagree("pk." + what, inp, [(str(a), b) for a, b in mod], im if isinstance(im, str) else [(str(a), b) for a, b in im])
             if isinstance(im, str):
+                ref = ref_extrema(x, "maxima" if what == "max" else "minima", loc == "local", thr)
+                chk.fail(NOEXC, inp, [(str(a), b) for a, b in ref], im)          # a crash is a failing clause, never an infrastructure error
                 continue
         if im:
             chk.nontriv((tuple(x), what, loc, thr))
@@ -402,6 +1058,8 @@ def run(chk):
                 lv = set(v for v, _ in ref_local(x))
                 if any(v not in lv for v, _ in im):
                     chk.fail("every global maximum is among the local maxima", inp, "subset", [(str(a), b) for a, b in im])
+            if sp is not None:
+                record_spell(chk, x, loc == "local", thr, sp, mod)
         else:
             # minima = mirrored maxima of the negated signal: against the independent reference, and against find_maxima(-x)
             ref = ref_extrema(x, "minima", loc == "local", thr)
@@ -409,10 +1067,14 @@ def run(chk):
                 chk.fail("%s minima are exactly the mirrored %s of the negated signal (threshold negated too)" % (
                     loc, "first-position excursion maxima" if loc == "global" else "interior peaks"),
                     inp, [(str(a), b) for a, b in ref], [(str(a), b) for a, b in im])
-            m2, i2 = find_maxima(-xf, local=(loc == "local"), threshold=None if thr is None else -float(thr))
-            if canon(-m2, i2) != im:
+            try:
+                m2, i2 = find_maxima(-xf, local=(loc == "local"), threshold=None if thr is None else -float(thr))
+                mir = canon(-m2, i2)
+            except Exception as e:                                  # noqa
+                mir = "err:%s:%s" % (type(e).__name__, str(e)[:80])
+            if mir != im:
                 chk.fail("minima are the mirrored maxima of the negated signal (threshold negated too)", inp,
-                         [(str(a), b) for a, b in canon(-m2, i2)], [(str(a), b) for a, b in im])
+                         mir if isinstance(mir, str) else [(str(a), b) for a, b in mir], [(str(a), b) for a, b in im])
     # ---- query histories: the clauses hold for every call of a sequence on the same object ----------------------------------------
     for h, rq in zip(hists, hreq):
         fails = []
@@ -423,25 +1085,47 @@ def run(chk):
         chk.count("history.step", len(h["ops"]))
         chk.dist("history:steps=%d:objects=%d" % (min(len(h["ops"]), 4), h["objects"]))
         t = [Fraction(v) for v in h["t"]]
-        it = iter(rq)
-        prior = set()
+        prior, changed = set(), set()
         for step, op in enumerate(h["ops"]):
-            if op["q"] not in ("maxima", "minima"):
+            chk.dist("history.op:" + op["q"])
+            if op["q"] == "setx":
+                changed.add(op["obj"])
+            if op["q"] not in ("maxima", "minima", "stats", "trace"):
                 continue
-            li = next(it)
-            if seen[step] is None or fails:
+            if not seen[step] or fails:
                 prior.add(op["obj"])
                 continue
             twq = None if op["twin"] is None else (Fraction(op["twin"][0]), Fraction(op["twin"][1]))
-            off = window_of(t, twq)[0]
-            mod = sorted((v, i + off) for v, i in parse(outs[li]))
-            if not op["rettime"]:
-                mod = sorted(v for v, _ in mod)
-            if mod != seen[step]:
-                chk.disagree("pk.history", dict(h, ops=h["ops"][:step + 1]), [str(a) for a in mod], [str(a) for a in seen[step]])
-            if seen[step] and op["obj"] in prior:
+            sel = window_of(t, twq)
+            off = sel[0] if sel else 0
+            for li, r in zip(rq[step], seen[step]):
+                if r is None:
+                    continue
+                mod = sorted((v, i + off) for v, i in parse(outs[li]))
+                if r[0] == "v":
+                    mod = sorted(v for v, _ in mod)
+                if mod != r[1]:
+                    chk.disagree("pk.history", dict(h, ops=h["ops"][:step + 1]), [str(a) for a in mod], [str(a) for a in r[1]])
+            if any(r is not None and r[1] for r in seen[step]) and op["obj"] in prior:
                 chk.nontriv(("hist", tuple(h["x"]), tuple(h["t"]), h["objects"], repr(h["ops"][:step + 1])))
+                if op["obj"] in changed:
+                    chk.dist("history:extrema found after the caller changed the signal")
             prior.add(op["obj"])
+    # ---- noisy real-valued signals --------------------------------------------------------------------------------------------------
+    for c, o in zip(floats, outs[n_hist:]):
+        got, amb, fails = eval_float(c)
+        chk.count("float")
+        chk.dist("float:%s:%s%s" % (c["via"], "local" if c["local"] else "global", ":skipped-near-mean" if amb else ""))
+        for oracle, e, ob in fails:
+            chk.fail(oracle, c, e, ob)
+        if got is None or amb:
+            continue
+        off = (float_window(c)[2] or [0])[0]
+        mod = sorted((v, i + off) for v, i in parse(o))
+        if mod != got:
+            chk.disagree("pk.float", c, [(float(a), b) for a, b in mod], [(float(a), b) for a, b in got])
+        if got:
+            chk.nontriv(("float", tuple(c["x"]), c["via"], c["local"], c["threshold"], repr(c["twin"])))
     # ---- series-level entry points and affine map -------------------------------------------------------------------------------
     sub = rng.sample(cases, min(len(cases), 400 if chk.quick else 4000))
     for x in sub:
@@ -449,39 +1133,42 @@ def run(chk):
             continue
         xf = np.array([float(v) for v in x])
         t = np.arange(len(x), dtype=float) * 0.25 - 1.0
-        ts_ = TimeSeries("s", t, xf)
         inp = dict(x=[str(v) for v in x])
         chk.count("ts.maxima")
-        for loc in (False, True):
-            m, tm = ts_.maxima(local=loc, rettime=True)
-            m0, i0 = find_maxima(xf, local=loc)
-            if not (np.array_equal(m, m0) and np.array_equal(tm, t[i0])):
-                chk.fail("TimeSeries.maxima(rettime) == find_maxima and reported times are the times at those positions",
-                         dict(inp, local=loc), [m0.tolist(), t[i0].tolist()], [np.asarray(m).tolist(), np.asarray(tm).tolist()])
-            # a = 2**p over the whole range of units, b = a * k * (a value of the signal): a*x + b is exact in floating point
-            aq = rng.choice([Fraction(2), Fraction(1, 2), Fraction(4)]) if rng.random() < 0.4 else rand_unit(rng)
-            w = next((abs(v) for v in x if v != 0), Fraction(1))
-            bq = aq * rng.randint(-5, 5) * w
-            a, b = float(aq), float(bq)
-            y = a * xf + b
-            if any(Fraction(float(yv)) != aq * v + bq for yv, v in zip(y, x)):
-                continue                                    # not exact (cannot happen with these pools): no honest exact comparison
-            chk.count("affine")
-            m1, i1 = find_maxima(y, local=loc)
-            if canon(m1, i1) != sorted((aq * v + bq, i) for v, i in canon(m0, i0)):
-                chk.fail(AFFINE, dict(inp, what="affine", a=str(aq), b=str(bq), local=loc),
-                         [(float(a * v + b), int(i)) for v, i in zip(m0, i0)], [(float(v), int(i)) for v, i in zip(m1, i1)])
-            elif len(m0):
-                chk.dist("affine:%s" % ("a<2^-40" if aq < Fraction(1, 2 ** 40) else "a>2^40" if aq > 2 ** 40 else "moderate"))
-        if ts_.max() != xf.max() or ts_.min() != xf.min():
-            chk.fail("TimeSeries.max/min are the extreme signal values", inp, [xf.max(), xf.min()], [ts_.max(), ts_.min()])
-        # window: maxima of the windowed signal
-        if len(x) >= 6:
-            tw = (float(t[1]), float(t[-2]))
-            m, tm = ts_.maxima(twin=tw, rettime=True)
-            m0, i0 = find_maxima(xf[1:-1])
-            if not (np.array_equal(m, m0) and np.array_equal(tm, t[1:-1][i0])):
-                chk.fail("maxima within a time window are those of the windowed signal", dict(inp, twin=tw), m0.tolist(), np.asarray(m).tolist())
+        try:
+            ts_ = TimeSeries("s", t, xf)
+            for loc in (False, True):
+                m, tm = ts_.maxima(local=loc, rettime=True)
+                m0, i0 = find_maxima(xf, local=loc)
+                if not (np.array_equal(m, m0) and np.array_equal(tm, t[i0])):
+                    chk.fail("TimeSeries.maxima(rettime) == find_maxima and reported times are the times at those positions",
+                             dict(inp, local=loc), [m0.tolist(), t[i0].tolist()], [np.asarray(m).tolist(), np.asarray(tm).tolist()])
+                # a = 2**p over the whole range of units, b = a * k * (a value of the signal): a*x + b is exact in floating point
+                aq = rng.choice([Fraction(2), Fraction(1, 2), Fraction(4)]) if rng.random() < 0.4 else rand_unit(rng)
+                w = next((abs(v) for v in x if v != 0), Fraction(1))
+                bq = aq * rng.randint(-5, 5) * w
+                a, b = float(aq), float(bq)
+                y = a * xf + b
+                if any(Fraction(float(yv)) != aq * v + bq for yv, v in zip(y, x)):
+                    continue                                    # not exact (cannot happen with these pools): no honest exact comparison
+                chk.count("affine")
+                m1, i1 = find_maxima(y, local=loc)
+                if canon(m1, i1) != sorted((aq * v + bq, i) for v, i in canon(m0, i0)):
+                    chk.fail(AFFINE, dict(inp, what="affine", a=str(aq), b=str(bq), local=loc),
+                             [(float(a * v + b), int(i)) for v, i in zip(m0, i0)], [(float(v), int(i)) for v, i in zip(m1, i1)])
+                elif len(m0):
+                    chk.dist("affine:%s" % ("a<2^-40" if aq < Fraction(1, 2 ** 40) else "a>2^40" if aq > 2 ** 40 else "moderate"))
+            if ts_.max() != xf.max() or ts_.min() != xf.min():
+                chk.fail("TimeSeries.max/min are the extreme signal values", inp, [xf.max(), xf.min()], [ts_.max(), ts_.min()])
+            # window: maxima of the windowed signal
+            if len(x) >= 6:
+                tw = (float(t[1]), float(t[-2]))
+                m, tm = ts_.maxima(twin=tw, rettime=True)
+                m0, i0 = find_maxima(xf[1:-1])
+                if not (np.array_equal(m, m0) and np.array_equal(tm, t[1:-1][i0])):
+                    chk.fail("maxima within a time window are those of the windowed signal", dict(inp, twin=tw), m0.tolist(), np.asarray(m).tolist())
+        except Exception as e:                                  # noqa
+            chk.fail(NOEXC, inp, "maxima / max / min of the series and of its affine image", "err:%s:%s" % (type(e).__name__, str(e)[:80]))
     chk.sample(dict(x=[0, 3, 3, 0, 5, 1, 0, 4, 0], global_maxima=[[3, 1], [4, 7], [5, 4]], local_maxima=[[3, 2], [4, 7], [5, 4]]))
 
 
@@ -491,11 +1178,34 @@ def replay(rp):
     if inp.get("kind") == "history":
         fails = []
         seen = eval_history(inp, lambda oracle, step, e, o: fails.append((oracle, step, e, o)))
-        for step, (op, got) in enumerate(zip(inp["ops"], seen)):
-            print("step %d: %s -> %s" % (step, {k: v for k, v in op.items() if v not in (None, False)},
-                                         None if got is None else [(str(a[0]), a[1]) if isinstance(a, tuple) else str(a) for a in got]))
+        for step, (op, res) in enumerate(zip(inp["ops"], seen)):
+            shown = [None if r is None else [(str(a[0]), a[1]) if isinstance(a, tuple) else str(a) for a in r[1]] for r in res]
+            print("step %d: %s -> %s" % (step, {k: (v if k != "values" else " ".join(v)) for k, v in op.items() if v is not None and v is not False},
+                                         shown[0] if len(shown) == 1 else shown))
         for oracle, step, e, o in fails:
             print("FAILS at step %d: %s\n   expected %s\n   observed %s" % (step, oracle, e, o))
+        print("replay: %d failing clause(s)" % len(fails))
+        return 1 if fails else 0
+    if inp.get("kind") == "float":
+        got, amb, fails = eval_float(inp)
+        xf, tf, sel, tw = float_window(inp)
+        print("%s %s threshold=%s window=%s on %d of %d samples%s\n   impl %s" % (
+            "local" if inp["local"] else "global", inp["via"], None if inp["threshold"] is None else float.fromhex(inp["threshold"]), tw,
+            len(sel), len(xf), " (a sample lies within rounding of the mean: reference not applicable)" if amb else "",
+            None if got is None else [(float(a), b) for a, b in got]))
+        for oracle, e, o in fails:
+            print("FAILS: %s\n   expected %s\n   observed %s" % (oracle, e, o))
+        print("replay: %d failing clause(s)" % len(fails))
+        return 1 if fails else 0
+    if inp.get("what") == "spell":
+        x = [Fraction(v) for v in inp["x"]]
+        thr = None if inp.get("threshold") is None else Fraction(inp["threshold"])
+        got, fails = eval_spell(x, inp["mode"] == "local", thr, inp["spell"])
+        print("%s maxima threshold=%s spelling %s\n   impl %s\n   reference %s" % (
+            inp["mode"], thr, inp["spell"], None if got is None else [(float(a), b) for a, b in got],
+            [(float(a), b) for a, b in ref_extrema(x, "maxima", inp["mode"] == "local", thr)]))
+        for oracle, e, o in fails:
+            print("FAILS: %s\n   expected %s\n   observed %s" % (oracle, e, o))
         print("replay: %d failing clause(s)" % len(fails))
         return 1 if fails else 0
     x = [Fraction(v) for v in inp["x"]]
